@@ -5,7 +5,8 @@ from ..layer_a import Engine, proj_kinds, error_kind
 from ..runner import run_coexec, replay_coexec
 
 MODULE = "Props.C11"
-THEOREMS = ["C11_unwinding_drop_silent", "C11_scope_left_by_panic", "C11_state_after_caught_panic", "C11_nonvacuous"]
+THEOREMS = ["C11_unwinding_drop_silent", "C11_scope_left_by_panic", "C11_state_after_caught_panic", "C11_matcher_panic_effect",
+            "C11_debug_panic_effect", "C11_debug_panic_is_the_only_panic", "C11_debug_panic_nonvacuous", "C11_nonvacuous"]
 
 RULE = ("the crash matrix, enumerated: panic origin {user code before the drop (drop while unwinding), matcher (unordered / ordered), answer function, Clone of the returned "
         "value, real (unmocked) function, default body, and each mock-induced error kind: no implementation, no matching pattern, wrong order, "
@@ -39,6 +40,15 @@ def configs():
         C.append(("NoDefaultImpl", [t(0, "each", 255, [("dfl",)]), bg], (0, 3), None))
         C.append(("CannotReturnValueMoreThanOnce", [t(4, "some", 255, [("ret", 1)]), bg], (4, 3), None))
         C.append(("none", [t(0, "each", 255, [("ret", 1)]), bg], (0, 3), None))
+        # user code that panics inside the Debug impl of an ARGUMENT while the runtime renders the call for the message of a mock
+        # error (DB::db(a: A8), argument 13; mask bit 13 = the pattern accepts it): one panic, the user's; observed through `callm`
+        M13 = 255 | (1 << 13)
+        C.append(("user:debug(NoMockImplementation)", [bg], (40, 13), None))
+        C.append(("user:debug(NoMatchingCallPatterns)", [t(40, "each", 255, [("ret", 1)]), bg], (40, 13), None))
+        C.append(("user:debug(ExplicitPanic)", [t(40, "each", M13, [("pan", 5)]), bg], (40, 13), None))
+        C.append(("user:debug(CallOrderNotMatched)", [t(0, "next", 255, [("ret", 1)]), t(40, "next", M13, [("ret", 2)]), bg], (40, 13), None))
+        C.append(("user:debug(InputsNotMatchedInCallOrder)", [t(40, "next", 255, [("ret", 1)]), bg], (40, 13), None))
+        C.append(("user:debug(CannotReturnValueMoreThanOnce)", [t(40, "some", M13, [("ret", 1)]), bg], (40, 13), None))
     return C
 
 
@@ -51,6 +61,7 @@ def make_case(origin, terms, probe, arm, topo, variant):
     mid, arg = probe
     evs = []
     inst = 0
+    CALL = "callm" if mid == 40 else "call"       # the Debug-panicking argument exists for the observed call only
     if topo in ("nvid_clone_alive", "nvid"):
         evs.append({"base": ("nvid", 0)})
     if topo in ("clone_alive", "foreign_thread_clone_alive", "nvid_clone_alive"):
@@ -65,27 +76,27 @@ def make_case(origin, terms, probe, arm, topo, variant):
         # the value chain holds a value whose Drop calls the mock (m1 is mentioned nowhere: the call fails, the Drop swallows the panic) -
         # also when the chain is released while the thread unwinds
         evs.append({"base": ("lendcall", 0, 1, 0)})
-    if origin == "CannotReturnValueMoreThanOnce":
-        evs.append({"base": ("call", inst, mid, arg)})  # first request takes the value
+    if origin.endswith("CannotReturnValueMoreThanOnce") or origin.endswith("CannotReturnValueMoreThanOnce)"):
+        evs.append({"base": (CALL, inst, mid, arg)})  # first request takes the value
     if arm:
         evs.append({"base": ("arm", arm)})
     other = topo.startswith("foreign_thread")
     if variant == "callown":
         e = {"base": ("callown", inst, mid, arg)}
     elif variant == "call_then_unwinding_drop":
-        evs.append({"base": ("call", inst, mid, arg)})
+        evs.append({"base": (CALL, inst, mid, arg)})
         e = {"base": ("drop", inst), "unwinding": True}
     elif variant == "call_then_unwinding_verify":
-        evs.append({"base": ("call", inst, mid, arg)})
+        evs.append({"base": (CALL, inst, mid, arg)})
         e = {"base": ("verify", inst), "unwinding": True}
     else:  # plain caught panic, instance survives
-        e = {"base": ("call", inst, mid, arg)}
+        e = {"base": (CALL, inst, mid, arg)}
     if other:
         e["other"] = True
     evs.append(e)
     # the same call once more through whatever instance survives: a caught panic must not have broken the pattern
-    evs.append({"base": ("call", 0, mid, arg)})
-    evs.append({"base": ("call", 1, mid, arg)})
+    evs.append({"base": (CALL, 0, mid, arg)})
+    evs.append({"base": (CALL, 1, mid, arg)})
     # afterwards: the survivors are still usable and verification reflects what was matched
     evs.append({"base": ("call", 0, 1, 0)})
     evs.append({"base": ("call", 1, 1, 0)})
@@ -105,6 +116,8 @@ def gen_cases(rng, tier):
             for variant in ("callown", "call_then_unwinding_drop", "call_then_unwinding_verify", "caught"):
                 if variant == "call_then_unwinding_verify" and topo == "scope_owns_clone":
                     continue      # verify() on a clone panics by contract (C09); not a drop
+                if variant == "callown" and probe[0] == 40:
+                    continue      # the scope-owned call is not modelled for the Debug-panicking argument (callm only)
                 out.append(make_case(origin, terms, probe, arm, topo, variant))
     return out
 
